@@ -100,6 +100,19 @@ def stepD (d : DSt) : List String → DSt × String
   | ["expire"] =>
     let st' := stepEv d.cfg d.st .expire
     ({ d with st := st' }, encB true ++ "\t" ++ encSt st')
+  | ["restart", uo, co] =>
+    let decU : Option (List (Nat × List Str)) :=
+      if uo = "-" then some [] else
+      (uo.splitOn ";").mapM fun item =>
+        match item.splitOn "=" with
+        | [k, v] => do pure ((← decN k), (← decL "+" v))
+        | _ => none
+    match decU, decEntries (decL "+") co with
+    | some uo, some co =>
+      let st' := stepEv d.cfg d.st (.restart uo co)
+      let okOrd := (restartPrep d.cfg d.st).fileOrderOk uo co
+      ({ d with st := st' }, (if okOrd then encB true else "order-mismatch") ++ "\t" ++ encSt st')
+    | _, _ => (d, "bad-op")
   | ["owners"] => (d, if (owners d.st).isEmpty then "-" else ",".intercalate ((owners d.st).map encN))
   | _ => (d, "bad-op")
 
